@@ -43,6 +43,12 @@ class KeepSplit(QueuePolicy):
         return [envelope] + [envelope.copy([r]) for r in rest]
 
 
+class PrependTag(QueuePolicy):
+    """test-only (not in the model): another policy that prepends a header, as slimta.lookup.policy does"""
+    def apply(self, envelope):
+        envelope.prepend_header('X-Hop-Tag', 'tag by harness')
+
+
 class RecHeaders(EmailMessage):
     """envelope.headers of the input (and, through deepcopy, of every copy) is given this class: assignments of
     header fields by the policies are recorded together with the field names present at that moment"""
@@ -140,6 +146,9 @@ RULESETS = [
 IDENTITY_RULESETS = [6, 12, 13, 14, 15, 16, 17, 18, 19]
 RCPT_POOL = ['a@x.com', 'b@x.com', 'c@X.COM', 'd@y.org', 'e@Y.org', 'f@Y.Org', 'nodomain', 'trailing@', '@lead.com', 'two@@z.net',
              'a@b@c.io', '', 'a@x.com', 'ü@x.com', '"quoted@local"@q.net', ' spaced @ s.net', 'A@X.COM', '@', 'x@y@', 'user@sub.x.com']
+_R1 = 'from orig1 by orig; Mon, 01 Jan 2024 00:00:00 +0000'
+_R2 = 'from orig2 by orig; Mon, 01 Jan 2024 00:00:01 +0000'
+_R3 = 'from orig3 by orig; Mon, 01 Jan 2024 00:00:02 +0000'
 HEADER_SETS = [
     [],
     [('Subject', 'orig subject')],
@@ -160,8 +169,20 @@ HEADER_SETS = [
     [('Date', '', 'Date:\r\n'), ('Message-Id', '<orig3@example.com>')],
     [('date', 'Mon, 01 Jan 2024 00:00:00 +0000'), ('Message-Id', '', 'Message-Id:\r\n'), ('Subject', 'orig subject')],
     [('DATE', '', 'DATE:\r\n'), ('Date', 'Mon, 01 Jan 2024 00:00:00 +0000'), ('message-ID', '', 'message-ID:\r\n')],
+    # --- existing Received fields in every position (first: set 5 above; none: sets 0-4)
+    [('Return-Path', '<bounce@example.com>'), ('Received', _R1), ('Subject', 'orig subject')],
+    [('DKIM-Signature', 'v=1; a=rsa-sha256; d=example.com; s=sel; bh=abc=; b=def='), ('X-Spam-Flag', 'NO'), ('Received', _R1), ('Received', _R2),
+     ('From', 'orig@example.com')],
+    [('Subject', 'orig subject'), ('received', _R1)],
+    [('X-First', '1'), ('RECEIVED', _R1), ('X-Mid', '2'), ('Received', _R2), ('To', 'x@example.com'), ('received', _R3),
+     ('Date', 'Mon, 01 Jan 2024 00:00:00 +0000')],
+    [('Received', _R1), ('Return-Path', '<bounce@example.com>'), ('Received', _R2), ('Message-Id', '<orig4@example.com>')],
+    [('From', 'orig@example.com'), ('To', 'x@example.com'), ('Subject', 'orig subject'), ('Received', _R1)],
+    [('X-Original-To', 'x@example.com'), ('Received', _R1), ('Date', '', 'Date:\r\n')],
+    [('Return-Path', '<>'), ('rEcEiVeD', _R2), ('X-Hop-Tag', 'orig tag'), ('Received', _R1)],
 ]
 EMPTY_HEADER_SETS = list(range(7, 16))
+RECEIVED_HEADER_SETS = [5] + list(range(16, 24))       # an existing Received field: on top (5, 20) / below other fields (the rest)
 KINDS = ['split', 'domain', 'forward', 'date', 'mid', 'received']
 EXTRA_KINDS = ['self', 'keepsplit']
 TAG = {'split': 0, 'domain': 1, 'forward': 2, 'date': 3, 'mid': 4, 'received': 5, 'self': 6, 'keepsplit': 7}
@@ -202,6 +223,8 @@ def build_policies(chain):
             out.append(AddReceivedHeader())
         elif kind == 'self':
             out.append(ReturnSelf())
+        elif kind == 'prepend':
+            out.append(PrependTag())
         else:
             out.append(KeepSplit())
     return out
@@ -264,11 +287,35 @@ def expected_names(chain, names):
             suf.append('Message-Id')
         elif kind == 'received':
             pre.insert(0, 'Received')
+        elif kind == 'prepend':
+            pre.insert(0, 'X-Hop-Tag')
     return pre, suf
+
+
+def is_subsequence(sub, seq):
+    it = iter(seq)
+    return all(any(x == y for y in it) for x in sub)
+
+
+def first_field(header_data):
+    """the first header field (with its continuation lines) of flatten()ed header bytes"""
+    lines = header_data.split(b'\r\n')
+    out = lines[:1]
+    for l in lines[1:]:
+        if l[:1] in (b' ', b'\t'):
+            out.append(l)
+        else:
+            break
+    return b'\r\n'.join(out)
 
 
 def snapshot(e):
     return (e.sender, list(e.recipients), [(k, str(v)) for k, v in e.headers.items()], e.message, dict(e.client))
+
+
+def raw_snapshot(e):
+    """as snapshot, with the header fields as stored (no parsing of the values): for the before / after comparisons of the mutation probe"""
+    return (e.sender, list(e.recipients), list(e.headers._headers), e.message, dict(e.client))
 
 
 def run_case(ctx, chain, sender, rcpts, headers, body, mode):
@@ -338,6 +385,32 @@ def run_case(ctx, chain, sender, rcpts, headers, body, mode):
         if not ok:
             fail(ctx, 'c16:header-rule', case, 'headers %r, expected names %r around the original %r' % (items, (pre, suf), orig_items))
             break
+    # a new Received header is placed first: when the last header-prepending policy of the chain is AddReceivedHeader, the
+    # first field of every written envelope - in envelope.headers and in the flatten()ed bytes - is this hop's Received
+    # field, and all original fields follow in their original relative order
+    tops = [k for k, _ in chain if k in ('received', 'prepend')]
+    if tops and tops[-1] == 'received':
+        for e, s in zip(written, snaps):
+            items = s[2]
+            why = None
+            if not items or items[0][0] != 'Received' or 'by recv.example (slimta' not in items[0][1] or items[0] in orig_items:
+                why = 'first field of envelope.headers is %r' % (items[:1],)
+            elif not is_subsequence(orig_items, items[1:]):
+                why = 'the original fields do not follow the new Received field in their order'
+            else:
+                try:
+                    hd = e.flatten()[0]
+                except Exception as ex:
+                    ctx.count('flatten-raised:%s' % type(ex).__name__)
+                    hd = None
+                if hd is not None:
+                    ff = first_field(hd)
+                    if not ff.startswith(b'Received:') or b'recv.example' not in ff:
+                        why = 'first field of the flatten()ed message is %r' % (ff,)
+            if why:
+                pos = [i for i, it in enumerate(items) if it[0] == 'Received' and it not in orig_items]
+                fail(ctx, 'c16:received-not-first', case, '%s; new Received field(s) at position(s) %r of %r' % (why, pos, [k for k, _ in items]))
+                break
     # no shared mutable state: object identities, then a mutation probe
     shared = []
     for i, j in itertools.combinations(range(len(written)), 2):
@@ -345,18 +418,19 @@ def run_case(ctx, chain, sender, rcpts, headers, body, mode):
         if a is b or a.recipients is b.recipients or a.headers is b.headers or a.client is b.client:
             shared.append((i, j))
     if not shared:
+        raws = [raw_snapshot(e) for e in written]
         for i, e in enumerate(written):
             e.recipients.append('mutated@example.com')
             e.headers['X-Mutated'] = 'yes'
             e.client['mutated'] = True
             for j, o in enumerate(written):
-                if j != i and snapshot(o) != snaps[j]:
+                if j != i and raw_snapshot(o) != raws[j]:
                     shared.append((i, j))
             # undo
             e.recipients.pop()
             del e.headers['X-Mutated']
             del e.client['mutated']
-            if snapshot(e) != snaps[i]:
+            if raw_snapshot(e) != raws[i] or (len(written) <= 3 and snapshot(e) != snaps[i]):
                 shared.append((i, i))
     if shared:
         fail(ctx, 'c16:shared-mutable-state', case, 'written envelopes %r share recipients / headers / client' % (shared[:5],))
@@ -520,6 +594,46 @@ def empty_header_cases(rng):
     return cases
 
 
+def received_cases(rng):
+    """every chain of length <= 3 over split / domain / received / date / mid containing AddReceivedHeader x every header block
+    with an existing Received field (on top, below Return-Path / DKIM-Signature / X- fields, lower / upper case, interleaved)"""
+    cases = []
+    for hs in RECEIVED_HEADER_SETS:
+        for ks in chains_containing(['split', 'domain', 'received', 'date', 'mid'], 3, ['received']):
+            mode = rng.choice(['enqueue'] * 8 + ['run_policies', 'enqueue+relay'])
+            rcpts = ['a@x.com', 'b@x.com', 'd@y.org'] if rng.random() < 0.6 else gen_rcpts(rng)
+            cases.append(([(k, None) for k in ks], 'sender@example.com', list(rcpts), HEADER_SETS[hs], b'body\r\n', mode))
+    return cases
+
+
+PREPEND_CHAINS = [
+    ['split', 'received', 'prepend', 'received'],
+    ['received', 'prepend', 'received', 'split'],
+    ['received', 'split', 'prepend', 'domain', 'received'],
+    ['domain', 'received', 'prepend', 'received', 'date', 'mid'],
+    ['received', 'prepend', 'prepend', 'received', 'prepend'],
+    ['date', 'received', 'mid', 'prepend', 'split', 'received', 'received'],
+]
+
+
+def run_prepend_chains(ctx, rng):
+    """implementation only (PrependTag is not in the model): AddReceivedHeader with another header-prepending policy before /
+    after / between two applications, before and after the split policies; all oracles of run_case apply"""
+    chains = [list(ks) for ks in chains_containing(['split', 'domain', 'received', 'prepend'], 3, ['received']) if 'prepend' in ks]
+    chains += PREPEND_CHAINS
+    n = 0
+    for hs in [0, 1] + RECEIVED_HEADER_SETS:
+        for ks in chains:
+            chain = [(k, None) for k in ks]
+            mode = rng.choice(['enqueue'] * 8 + ['run_policies'])
+            rcpts = ['a@x.com', 'b@x.com', 'd@y.org', 'nodomain']
+            run_case(ctx, chain, 'sender@example.com', rcpts, HEADER_SETS[hs], b'body\r\n', mode)
+            ctx.evaluated((tuple(chain), tuple(rcpts), tuple(HEADER_SETS[hs]), mode), nontrivial=True)
+            ctx.count('policy:prepend(test-only)')
+            n += 1
+    ctx.count('received-with-prepending-policy-cases(implementation only)', n)
+
+
 def probe_generator(ctx):
     class GenSplit(QueuePolicy):
         def apply(self, envelope):
@@ -561,7 +675,9 @@ def run(ctx):
     empties = empty_header_cases(rng)
     ctx.count('identity-rule-chain-cases', len(ident))
     ctx.count('empty-date-or-message-id-chain-cases', len(empties))
-    cases = ident + empties
+    recvd = received_cases(rng)
+    ctx.count('existing-received-field-chain-cases', len(recvd))
+    cases = ident + empties + recvd
     reps = 2 if ctx.quick else 12
     for kinds in all_chains(4):
         for _ in range(reps):
@@ -577,6 +693,7 @@ def run(ctx):
         mode = rng.choice(['enqueue'] * 8 + ['run_policies', 'enqueue+relay'])
         cases.append((chain, rng.choice(['sender@example.com', '', 'S@Example.COM']), gen_rcpts(rng), rng.choice(HEADER_SETS), b'body\r\n', mode))
     run_cases(ctx, cases)
+    run_prepend_chains(ctx, rng)
     probe_generator(ctx)
     ctx.extra['exhaustive'] = True
     ctx.extra['exhaustive_bound'] = ('all 1555 chains of length <= 4 over the six built-in policies (each with %d generated recipient lists / header sets); '
